@@ -36,6 +36,11 @@ type Line struct {
 	Doc []Op     `json:"doc"`
 	Opn string   `json:"opn"`
 	Src string   `json:"src"`
+	// where the document travels ("url", "body", "both"), the decode source of
+	// the selected transport and the document that transport gets to see
+	Carry string `json:"carry"`
+	Esrc  string `json:"esrc"`
+	Edoc  []Op   `json:"edoc"`
 
 	Tk     string   `json:"tk"`
 	Ti     int      `json:"ti"`
@@ -161,7 +166,7 @@ func fieldOf(kind string, pos int) string { return fmt.Sprintf("%c%d", kind[0], 
 func expectedLog(l *Line) []string {
 	out := []string{}
 	for _, i := range l.Exec {
-		o := l.Doc[i-1]
+		o := l.Edoc[i-1]
 		out = append(out, o.K+":"+o.N+":"+fieldOf(o.K, i))
 	}
 	return out
@@ -326,7 +331,10 @@ func multipartBody(boundary, operations string, withMap bool, firstName string) 
 }
 
 // concretise turns the request class of a TLC line into one concrete request.
-func concretise(l *Line, r *rand.Rand, id string) (Concrete, params) {
+// forcedCT >= 0 selects a spelling of the Content-Type class by index
+// (round-robin over the class "other", so that every media type literal of
+// the tree under test is tried in every (method, carry) cell).
+func concretise(l *Line, r *rand.Rand, id string, forcedCT int) (Concrete, params) {
 	c := Concrete{Method: l.M}
 	if l.M == "PUT" {
 		c.Method = pick(r, "PUT", "DELETE", "PATCH")
@@ -347,6 +355,9 @@ func concretise(l *Line, r *rand.Rand, id string) (Concrete, params) {
 	h := [][2]string{{"X-Verif-Id", id}}
 	if sps, ok := ctSpellings[l.Ct]; ok {
 		sp := pick(r, sps...)
+		if forcedCT >= 0 {
+			sp = sps[forcedCT%len(sps)]
+		}
 		if strings.Contains(sp, "%s") {
 			sp = fmt.Sprintf(sp, boundary)
 		}
@@ -366,8 +377,8 @@ func concretise(l *Line, r *rand.Rand, id string) (Concrete, params) {
 	}
 	c.Headers = h
 
-	// ---- URL parameters for everything that is not a POST
-	if l.M != "POST" {
+	// ---- URL parameters: when the document travels in the URL
+	if l.Carry == "url" || l.Carry == "both" {
 		switch l.Val {
 		case "undecEnv":
 			c.Query = pick(r, "query=%zz", "query=%7Bq1%7D&variables=%", "query={q1};operationName=A", "query=%7Bq1%7D&%gg=1")
@@ -379,7 +390,24 @@ func concretise(l *Line, r *rand.Rand, id string) (Concrete, params) {
 			c.Query = urlParams(p, r)
 		}
 	}
-	if l.M == "GET" || l.M == "HEAD" || l.M == "OPTIONS" {
+	if l.Carry == "url" {
+		return c, p
+	}
+	if l.Carry == "both" {
+		// the body holds the probe: an anonymous mutation, encoded as the
+		// Content-Type class announces; the URL holds the request's own document
+		bp := params{query: "mutation { m1 }"}
+		c.Note += " [body: mutation { m1 }]"
+		switch l.Ct {
+		case "graphql":
+			c.Body = bp.query
+		case "form":
+			c.Body = pick(r, jsonBody(bp, r), "query="+bp.query)
+		case "multipart":
+			c.Body = multipartBody(boundary, jsonBody(bp, r), true, "operations")
+		default:
+			c.Body = jsonBody(bp, r)
+		}
 		return c, p
 	}
 
